@@ -6,10 +6,10 @@ from vp import core, miniir, proggen
 
 def run_programs(ctx: core.Ctx) -> None:
     cfg = proggen.Config()
-    # the known, listed op-level findings (unsigned cmpi on mixed representatives, f32 arithmetic in
-    # double precision) are kept out of the program stream so that any program-level difference is new
+    # the known, listed op-level finding (unsigned cmpi on mixed representatives) is kept out of the
+    # program stream so that any program-level difference is new; f32 arithmetic is in the stream since
+    # run_addf/run_subf/run_mulf round their result to the result type
     cfg.cmpi_preds = ["eq", "ne", "slt", "sle", "sgt", "sge"]
-    cfg.float_types = ["f64"]
     g = proggen.ProgGen(ctx.rng, cfg)
     nprog = 120 if ctx.tier == "quick" else 1500
     lines: list[str] = []
